@@ -84,7 +84,11 @@ def xml_cell(c):
     a = "" if c["rep"] is None else ' table:number-columns-repeated="%s"' % esc(c["rep"], True)
     if c["paras"]:
         a += ' office:value-type="string"'
-    body = "".join("<text:p>" + "".join(xml_inl(n) for n in p) + "</text:p>" for p in c["paras"])
+    # white space between the paragraphs of a cell (pretty printed XML) is no part of any text
+    glue = c.get("glue", "")
+    body = glue.join("<text:p>" + "".join(xml_inl(n) for n in p) + "</text:p>" for p in c["paras"])
+    if body and glue:
+        body = glue + body + glue
     if c.get("note"):
         # a cell comment as office suites store it: its paragraphs are no part of the cell's text
         body = "<office:annotation><text:p>%s</text:p><text:p>second line</text:p></office:annotation>" % esc(c["note"]) + body
@@ -220,6 +224,8 @@ def enc_table(rnd, table):
     for row, n in enc_runs(rnd, [tuple(r) for r in table], 0.8):
         cells = [{"rep": rep_attr(rnd, k), "paras": enc_cell_text(rnd, v)} for v, k in enc_runs(rnd, list(row), 0.8)]
         for c in cells:
+            if rnd.random() < 0.15:
+                c["glue"] = rnd.choice(["\n", "\n      ", " ", "\t\n  "])
             if rnd.random() < 0.08:
                 c["note"] = rnd.choice(["a comment", "x", "1", "check <this>"])
         rows.append({"rep": rep_attr(rnd, n), "cells": cells})
